@@ -56,6 +56,24 @@ def run_case(ctx, rng, idx):
         hb = hgx.Hypergraph([A, B, C, D] + small)
         undirected_eval(ctx, rng, idx, hb, only_line=True)
         return
+    if idx in (5, 9) or (ctx.tier == "thorough" and idx % 700 == 13):
+        # a hub: one node in 40-70 hyperedges of sizes 2-4 (their pairwise similarities range from 1/7 to 1), plus hyperedges
+        # that avoid it - every threshold between two realised similarities separates some pairs that share the hub
+        import hypergraphx as hgx
+
+        ctx.event("hub-in-40+-hyperedges")
+        base = rng.choice([0, 500])
+        hub = base
+        others = [base + 3 * i + 1 for i in range(rng.randint(12, 18))]
+        es = set()
+        while len(es) < rng.randint(40, 70):
+            es.add(tuple(sorted([hub] + rng.sample(others, rng.choice([1, 1, 2, 2, 3])))))
+        for _ in range(rng.randint(3, 8)):
+            es.add(tuple(sorted(rng.sample(others, rng.choice([2, 3])))))
+        es = sorted(es)
+        rng.shuffle(es)
+        undirected_eval(ctx, rng, idx, hgx.Hypergraph(es), only_line=True)
+        return
     if idx == 1 or (ctx.tier == "thorough" and idx % 700 == 9):
         from ..gen import big_hypergraph
 
@@ -145,6 +163,8 @@ def undirected_eval(ctx, rng, idx, h, only_line=False):
         combos += [("intersection", s) for s in (255, 256, 257, 258)]
     realised = sorted({len(a & b) / len(a | b) for a, b in itertools.combinations(edges, 2) if a & b})
     combos = rng.sample(combos, 5 if ctx.tier == "quick" else 10) + [("jaccard", s) for s in realised[:6]]  # thresholds hit exactly
+    if only_line:  # (few, large inputs: every jaccard threshold of the grid, and realised values from the whole range)
+        combos += [("jaccard", s) for s in JS] + [("jaccard", s) for s in rng.sample(realised, min(4, len(realised)))]
     # ... and thresholds a hair above / below a realised value (1e-11 relative: far beyond rounding of the quotient,
     # far below any "close enough" tolerance): only ">= s" in the strict sense joins
     combos += [("jaccard", v * f) for v in realised[:4] for f in (1 + 1e-11, 1 - 1e-11) if 0 < v * f <= 1]
